@@ -381,6 +381,101 @@ pub async fn run_scenario(sc: &Scenario, params: &Params, rng: &mut Rng, rep: &m
     }
 }
 
+/// a refused block whose valid parent is wound and unwound again as the LAST step of the attempt,
+/// with that parent sitting in slot 0 of the block ring (id = k x ring size): the node holds the
+/// parent only as a side block because it arrived before its own parent (the regime saito-rust runs
+/// in), so there is no old chain to wind back afterwards. Tip, index and ledger must be those of
+/// before the refused block.
+async fn ring_wrap_scenario(gp: u64, wraps: u64, kind: Kind, rng: &mut Rng, rep: &mut Report) {
+    let mut params = Params::with_gp(gp);
+    params.loading_completed = false;
+    let n_actors = 4;
+    let sut_actor = 1;
+    let mut b = Builder::new(&params, n_actors, &default_issuance(n_actors)).await;
+    let creator = b.actors[0].clone();
+    let ring = 2 * gp;
+    let x_id = ring * wraps;
+    // honest chain up to X (id = x_id) and one more block Y on top of it
+    let genesis = b.genesis;
+    let chain = honest_chain(&mut b, rng, genesis, x_id as usize, 0, sut_actor).await;
+    if chain.len() as u64 != x_id || b.store.get(chain.last().unwrap()).id != x_id + 0 {
+        // (genesis has id 1: `x_id` further blocks end at id x_id + 1)
+    }
+    // ids: genesis 1, chain[i] has id i + 2; X is the block with id x_id
+    let x_pos = (x_id - 2) as usize;
+    if chain.len() <= x_pos + 1 {
+        rep.count("ring_wrap_chain_not_built");
+        return;
+    }
+    let (x, y) = (chain[x_pos], chain[x_pos + 1]);
+    let mut bad = b.store.get(&y).block.clone();
+    if !corrupt_with(&mut bad, kind, &creator, rng, None) {
+        return;
+    }
+    let bad_bytes = block_bytes(&bad);
+    let mut node = LNode::new(&b.actors[sut_actor], &params);
+    let g = b.store.get(&b.genesis).bytes.clone();
+    node.add_bytes(&g).await;
+    for h in &chain[..x_pos - 1] {
+        let bytes = b.store.get(h).bytes.clone();
+        if node.add_bytes(&bytes).await != Some(Added::Ok(true)) {
+            rep.count("ring_wrap_prefix_refused");
+            return;
+        }
+    }
+    // X before its parent, then the parent
+    let xb = b.store.get(&x).bytes.clone();
+    let _ = node.add_bytes(&xb).await;
+    let pb = b.store.get(&chain[x_pos - 1]).bytes.clone();
+    let _ = node.add_bytes(&pb).await;
+    let (tid, th) = node.tip().await;
+    if th != chain[x_pos - 1] || tid != x_id - 1 {
+        // the node already moved on to X (or somewhere else): not the shape this scenario is about
+        rep.count("ring_wrap_shape_not_reached");
+        return;
+    }
+    rep.eval();
+    rep.count("ring_wrap_cells");
+    rep.nontrivial(&format!("ring-wrap|gp={}|wraps={}|{:?}", gp, wraps, kind));
+    // winding the valid block X moves the persisted high-water mark (last_block_*) and may prune
+    // blocks that leave the 2 x genesis-period horizon with it; neither is undone by unwinding X
+    // and neither is the refused block's doing: both are left out of the comparison
+    let horizon = (x_id + 1).saturating_sub(ring);
+    let normalise = |mut s: crate::monitors::Snapshot| {
+        s.last_id = 0;
+        s.last_hash = [0; 32];
+        s.blocks.retain(|_, (id, _)| *id > horizon);
+        s.ring.retain(|id, _| *id > horizon);
+        s.index.retain(|id, _| *id > horizon);
+        s
+    };
+    let before = normalise(snapshot_of(&node).await);
+    let r = crate::panics::catch_async(node.add_bytes(&bad_bytes)).await;
+    let replay = json!({"kind":"ring-wrap","gp":gp,"wraps":wraps,"fault":format!("{:?}", kind),"chain_hex": std::iter::once(&b.genesis).chain(chain[..=x_pos].iter()).map(|h| hex::encode(&b.store.get(h).bytes)).collect::<Vec<_>>(),"refused_hex": hex::encode(&bad_bytes)});
+    match r {
+        Err(p) => {
+            rep.violation(&format!("C04|clause=panic|pos=ring-wrap|{}", p.signature()), &format!("ring wrap gp={} id {}: add_block of the invalid child panicked: {}", gp, x_id + 1, p.message), replay);
+        }
+        Ok(res) => {
+            let res = res.unwrap_or(Added::Invalid);
+            if res.accepted() {
+                rep.count("ring_wrap_invalid_child_not_refused");
+                return;
+            }
+            rep.count("rejections");
+            rep.count("rejections.ring-wrap");
+            let after = normalise(snapshot_of(&node).await);
+            if before != after {
+                rep.violation(
+                    &format!("C04|clause=trace|what={}|pos=ring-wrap", diff_kinds(&before, &after).join("+")),
+                    &format!("ring of {} slots, tip {} with its valid child {} held as a side block: the invalid block {} on top of that child was refused ({}) but state changed: {}", ring, x_id - 1, x_id, x_id + 1, res.short(), diff(&before, &after).join("; ")),
+                    replay,
+                );
+            }
+        }
+    }
+}
+
 pub async fn run(ctx: &Ctx, rep: &mut Report) {
     let mut rng = ctx.rng();
     rep.exhaustive = true;
@@ -429,6 +524,18 @@ pub async fn run(ctx: &Ctx, rep: &mut Report) {
                             }
                         }
                     }
+                }
+            }
+        }
+    }
+    // the block ring's wrap-around
+    let mut cell = 0u64;
+    for gp in [4u64, 6] {
+        for wraps in [1u64, 2] {
+            for kind in [Kind::Treasury, Kind::Difficulty, Kind::BurnFee] {
+                cell += 1;
+                if ctx.mine(cell) {
+                    ring_wrap_scenario(gp, wraps, kind, &mut rng, rep).await;
                 }
             }
         }
